@@ -97,7 +97,8 @@ def mc_files(scn_name, tag, ts_of, sched_of, invariants=(), defects=(), **kw):
     sched_of: list (per InstSeq entry) of sets of booleans."""
     scn = SCN[scn_name]
     c = dict(max_env=1, max_crash=1, max_runs=2, max_prunes=1, pad=0, ticks={1, 3}, maxes={1},
-             tick_in_listing=False, expiry=EXPIRY, batch=BATCH, now0=NOW0, spare=None)
+             tick_in_listing=False, expiry=EXPIRY, batch=BATCH, now0=NOW0, spare=None,
+             max_reads=0, split_read=False)
     c.update(kw)
     spare = scn['spare'] if c['spare'] is None else c['spare']
     mod = 'MC_%s_%s' % (scn_name, tag)
@@ -120,6 +121,7 @@ def mc_files(scn_name, tag, ts_of, sched_of, invariants=(), defects=(), **kw):
            ' MaxEnv = %d' % c['max_env'], ' MaxCrash = %d' % c['max_crash'],
            ' MaxRuns = %d' % c['max_runs'], ' MaxPrunes = %d' % c['max_prunes'],
            ' Pad = %d' % c['pad'], ' TickInListing = %s' % tla(c['tick_in_listing']),
+           ' MaxReads = %d' % c['max_reads'], ' SplitRead = %s' % tla(c['split_read']),
            ' Defects = %s' % tla(set(defects))]
     cfg += ['INVARIANT %s' % inv for inv in invariants]
     return mod, mod + '.cfg', {mod + '.tla': text, mod + '.cfg': '\n'.join(cfg) + '\n'}
@@ -130,6 +132,7 @@ INVS = {'trace': ['InvLossless', 'InvLiveScheduled', 'InvLiveYoung', 'InvLiveYou
         'finished': ['InvLossless', 'InvLiveYoung', 'InvLiveYoungCode', 'InvFullBatch',
                      'InvPruneNewest', 'TypeOK'],
         'server': ['InvLossless', 'InvFullBatch', 'InvPruneNewest', 'TypeOK']}
+READ_INVS = ['InvReadNeverZero', 'InvReadWindow', 'InvReadBound']
 FIXED_TS = {1: {3}, 2: {5}, 3: {4}, 4: {5}, 5: {6}}     # 6 = the boundary now - expiry
 
 
@@ -145,15 +148,22 @@ def _model_check(ctx):
         ('server', 'pop', {i: ({5, 6} if ctx.quick else around) for i in range(1, 6)}, [],
          dict(max_env=2, max_crash=2 if not ctx.quick else 1)),
     ]
+    # extension beyond C18: the readers as actions (Read issued in any archiver state)
+    for scn in ('trace', 'finished', 'server'):
+        runs.append((scn, 'read', FIXED_TS if ctx.quick else {i: {4, 6} for i in range(1, 6)},
+                     [{True, False}, {False}] if scn == 'trace' else [],
+                     dict(max_env=1, max_crash=1 if ctx.quick else 2, max_runs=2, max_prunes=1,
+                          max_reads=1, spare=[7] if scn == 'trace' else [6])))
     need = ['Upload', 'Delete', 'Crash', 'PruneDelete', 'AddEvent', 'Tick', 'EndRun', 'Seed']
 
     def one(job):
         scn, tag, ts_of, sched_of, kw = job
-        mod, cfg, files = mc_files(scn, tag, ts_of, sched_of, invariants=INVS[scn], **kw)
+        invs = INVS[scn] + (READ_INVS if tag == 'read' else [])
+        mod, cfg, files = mc_files(scn, tag, ts_of, sched_of, invariants=invs, **kw)
         for attempt in (1, 2):
             try:
-                return tlc.mc(SPEC_DIR, mod, cfg, extra_files=files, workers=4,
-                              timeout=300 if ctx.quick else 1500, heap='3g')
+                return tlc.mc(SPEC_DIR, mod, cfg, extra_files=files, workers=2 if tag == 'read' else 4,
+                              timeout=600 if ctx.quick else 1500, heap='3g')
             except tlc.MachineryError as e:
                 # rc 143 = the JVM got SIGTERM from outside (shared machine): once more
                 if attempt == 2 or 'rc=143' not in str(e):
@@ -162,7 +172,8 @@ def _model_check(ctx):
     with concurrent.futures.ThreadPoolExecutor(len(runs)) as ex:
         results = list(ex.map(one, runs))
     for (scn, tag, _ts, _sc, _kw), res in zip(runs, results):
-        ctx.add_mc('Archive/%s/%s' % (scn, tag), res, need_actions=need)
+        ctx.add_mc('Archive/%s/%s' % (scn, tag) + (' (extension: readers)' if tag == 'read' else ''),
+                   res, need_actions=need + (['Read'] if tag == 'read' else []))
         if res['violated']:
             raise tlc.MachineryError(
                 'Archive.tla (%s/%s) violates %s: the specification is expected to satisfy C18; '
@@ -266,8 +277,10 @@ def labels_to_history(scn_name, labels, batch=BATCH, expiry=EXPIRY):
             prune['deleted'] += 1
         elif label == 'Idle':
             close_prune(False)
+        elif label in ('ReadHist', 'ReadLive'):
+            pass                       # the split reader is a model-only experiment
         else:
-            step = _env_step(scn, label, args)
+            step = ['Read', mode] if label == 'Read' else _env_step(scn, label, args)
             if run is not None:
                 if run['writes'] == 0 and run['listed'] < nsh:
                     run['inject'].append(['list', run['listed'], step])
@@ -293,7 +306,8 @@ def _generate_tlc(ctx):
         mod, cfg, files = mc_files(
             scn, 'gen', {i: around for i in range(1, 6)},
             [{True, False}] * len(SCN[scn]['inst_seq']),
-            max_env=3, max_crash=2, max_runs=3, max_prunes=1, pad=depth, ticks={1, 3})
+            max_env=3, max_crash=2, max_runs=3, max_prunes=1, pad=depth, ticks={1, 3},
+            max_reads=2)
         behaviours, cmd = tlc.simulate(SPEC_DIR, mod, cfg, num=n, depth=depth,
                                        seed=ctx.seed * 131 + k, procs=4 if ctx.quick else 8,
                                        extra_files=files, timeout=120 if ctx.quick else 900)
@@ -411,6 +425,38 @@ def cut_expansions(history, rng, per_call):
     return out
 
 
+def read_expansions(history, rng, per_call):
+    """Extension (readers): for every archiving call of the history and (per_call =
+    None: every, else that many sampled) k in 0..W: the call with a reader issued
+    right after its k-th write, followed by a reader at rest; and the same after a
+    call that was cut (crash at a sampled write) and before/inside the restarted one."""
+    out = []
+    with ad.Session():
+        world = ad.build(history['setup'])
+        for p, step in enumerate(history['steps']):
+            if step[0] == 'Archive':
+                plain = list(step)
+                plain[5] = []
+                total = ad.full_writes(world, plain)
+                ks = list(range(0, total + 1))
+                if per_call is not None and len(ks) > per_call:
+                    ks = sorted(rng.sample(ks, per_call))
+                rd = ['Read', step[1]]
+                for k in ks:
+                    mid = list(plain)
+                    mid[5] = [['write', k, rd]]
+                    steps = history['steps'][:p] + [mid, rd]
+                    if total >= 2:
+                        c = rng.randint(2, total)
+                        cut = list(plain)
+                        cut[4] = c
+                        cut[5] = [['write', min(k, c - 1), rd]]
+                        steps += [cut, rd, mid]
+                    out.append(dict(setup=history['setup'], steps=steps))
+            ad.run_steps(world, [step])
+    return out
+
+
 def record(histories):
     traces = []
     for n, (scn, src, h) in enumerate(histories):
@@ -441,11 +487,19 @@ def judge(ctx, traces, verdicts):
     violations, nontrivial = [], set()
     flags = collections.Counter()
     drift_samples = []
+    ext_fail = collections.Counter()
+    ext_samples = []
     evaluations = 0
     for v in verdicts:
         t = by_tid[v['tid']]
         fails = set(v['fail'])
         evaluations += 1
+        for f in fails:
+            if f.startswith('ext.'):
+                ext_fail[f] += 1
+                if len(ext_samples) < 2:
+                    ext_samples.append(dict(tid=t['tid'], clause=f, setup=t['history']['setup'],
+                                            steps=t['history']['steps'][:v['i']]))
         if any(f.startswith('drift.') for f in fails):
             ctx.drift += 1
             if len(drift_samples) < 3:
@@ -475,12 +529,24 @@ def judge(ctx, traces, verdicts):
     if ctx.drift:
         print('DRIFT: %d recorded steps are not what ArchiveOps computes (spec needs updating; '
               'not a violation), e.g. %s' % (ctx.drift, json.dumps(drift_samples[:2])))
+    if ext_fail:
+        print('DRIFT: extension beyond C18 (readers): %s lines do not conform to Archive.tla\'s '
+              'Read (not a violation), e.g. %s' % (dict(ext_fail), json.dumps(ext_samples[:1])))
+    extensions = dict(archive_readers=dict(
+        what='download_batch / AppTraceLoop / ServerTraceLoop / the finished-history query / '
+             'list_traces called by a third client between two ZooKeeper writes of an archiving '
+             'call; Archive.tla actions Read (invariants InvReadNeverZero, InvReadWindow, '
+             'InvReadBound in the `read` model runs above); conformance class',
+        clauses=['ext.archive.read', 'ext.archive.readLoop'],
+        lines_with_reads=flags.get('ext.read', 0), reads_mid_run=flags.get('ext.readMidRun', 0),
+        lines_with_an_event_seen_twice=flags.get('ext.readTwice', 0),
+        nonconforming=dict(ext_fail)))
     return core.conclude(
         ctx, level='model_checking', violations=violations, evaluations=evaluations,
         distinct_nontrivial=len(nontrivial), rule=RULE, samples=samples,
         traces_validated=len(traces), assumptions=ASSUMPTIONS,
         extra=dict(trace_sources=dict(collections.Counter(t['src'] for t in traces)),
-                   exercised=dict(flags), notes=ctx.notes))
+                   exercised=dict(flags), notes=ctx.notes, extensions=extensions))
 
 
 def run(ctx):
@@ -503,7 +569,18 @@ def run(ctx):
         for c in cut_expansions(h, rng, per_call if src != 'pop' else (3 if ctx.quick else None)):
             hist.append((scn, 'cut-' + src, c))
             budget -= 1
-    ctx.log('%d histories (%d with a crash cut)' % (len(hist), len(hist) - len(base)))
+    ncut = len(hist) - len(base)
+    rbudget = 120 if ctx.quick else 4000
+    for scn, src, h in base:
+        if rbudget <= 0:
+            break
+        if src == 'tlc' or (ctx.quick and rng.random() < 0.4):
+            continue
+        for c in read_expansions(h, rng, 2 if ctx.quick else None):
+            hist.append((scn, 'read-' + src, c))
+            rbudget -= 1
+    ctx.log('%d histories (%d with a crash cut, %d with readers between two writes)'
+            % (len(hist), ncut, len(hist) - len(base) - ncut))
     traces = record(hist)
     ctx.log('recorded %d traces, %d lines' % (len(traces), sum(len(t['lines']) for t in traces)))
     verdicts, stats = validate(traces, timeout=600 if ctx.quick else 3000)
@@ -561,11 +638,23 @@ def selftest(ctx):
                  'C18.fullBatch'),
                 ('prune_wrong', prune_wrong, 'C18.pruneNewest')]
     traces = [good] + [variant(n, fn) for n, fn, _ in variants]
+    # extension (readers): a reader in the upload -> delete window; the log is changed to
+    # "saw the event once" (the model says twice) and to "the loop never handed it on"
+    hr = dict(setup=setup, steps=[['Archive', 'trace', 2, 4, 0, [['write', 1, ['Read', 'trace']]]]])
+    tr = record([('trace', 'selftest-read', hr)])[0]
+    for name, field, val in (('read_once', 'n', 1), ('loop_zero', 'loop', 0)):
+        t = json.loads(json.dumps(tr))
+        t['tid'] = name
+        it = [x for x in t['lines'][1]['reads'][0]['items'] if x['n'] == 2][0]
+        it[field] = val
+        traces.append(t)
+    traces.append(tr)
+    variants = variants + [('read_once', None, 'ext.archive.read'), ('loop_zero', None, 'ext.archive.readLoop')]
     verdicts, _ = validate(traces)
     failed = collections.defaultdict(set)
     for v in verdicts:
         failed[v['tid']] |= set(v['fail'])
-    ok = not any(f.startswith('C18.') for f in failed[good['tid']])
+    ok = not any(f.startswith('C18.') for f in failed[good['tid']]) and not failed[tr['tid']]
     print('selftest: unmodified trace: %s' % sorted(failed[good['tid']]))
     for n, _fn, clause in variants:
         print('selftest: %-15s -> %s (expects %s)' % (n, sorted(failed[n]), clause))
